@@ -27,6 +27,11 @@ pub enum Act {
   /// callback pushes `ev` into hot source `src` - feedback on the same thread (the reference
   /// interpreter runs the push re-entrantly from the recorder, as the crate does).
   Feed { outer: usize, trig: Trig, src: usize, ev: Ev },
+  /// declaration: when root `outer`'s subscriber receives `trig`, its callback unsubscribes
+  /// root `outer`'s own subscription (no-op while subscribe() has not returned yet)
+  SelfUnsub { outer: usize, trig: Trig },
+  /// unsubscribe the k-th (1-based) inner observable that root r was handed by window_with_count / group_by
+  InnerUnsub(usize, u32),
 }
 
 #[derive(Clone, Copy, Debug, PartialEq)]
@@ -85,6 +90,8 @@ impl Case {
         Act::UsingDropUnwinding(r) => format!("drop-using-while-unwinding#{}", r),
         Act::Nest { outer, trig, inner } => format!("[#{} subscribes #{} from its callback at {:?}]", outer, inner, trig),
         Act::Feed { outer, trig, src, ev } => format!("[#{}'s callback at {:?} pushes {} into s{}]", outer, trig, ev.show(), src),
+        Act::SelfUnsub { outer, trig } => format!("[#{}'s callback at {:?} unsubscribes #{}]", outer, trig, outer),
+        Act::InnerUnsub(r, k) => format!("unsub-inner#{}.{}", r, k),
         Act::Emit(i, e) => format!("s{}!{}", i, e.show()),
       })
       .collect();
@@ -276,12 +283,16 @@ struct SRec {
   log: Arc<Mutex<Vec<RecEv>>>,
   step: Arc<AtomicUsize>,
   toks: Tokens,
-  inner_subs: Arc<Mutex<Vec<Subscription<'static>>>>,
+  inner_subs: Arc<Mutex<Vec<(u32, Subscription<'static>)>>>,
   built: Arc<Mutex<Option<Arc<Built>>>>,
   nests: Arc<Mutex<Vec<(usize, Trig, usize, bool)>>>,
   nested_subs: Arc<Mutex<Vec<(usize, Subscription<'static>)>>>,
   feeds: Arc<Mutex<Vec<(usize, Trig, usize, Ev, bool)>>>,
   pushers: Arc<Mutex<Vec<Arc<dyn Fn(&Ev) + Send + Sync>>>>,
+  self_unsubs: Arc<Mutex<Vec<(usize, Trig, bool)>>>,
+  root_subs: Arc<Mutex<Vec<Option<Subscription<'static>>>>>,
+  /// (root, length of the log when its unsubscribe - called from a callback - had returned)
+  unsub_marks: Arc<Mutex<Vec<(usize, usize)>>>,
 }
 
 fn conv_mat(m: Material<V>) -> D {
@@ -335,6 +346,25 @@ impl SRec {
           p(&e);
         }
       }
+      let su: bool = {
+        let mut f = self.self_unsubs.lock().unwrap();
+        let mut hit = false;
+        for x in f.iter_mut() {
+          if x.0 == root && !x.2 && x.1.matches(&ev, items) {
+            x.2 = true;
+            hit = true;
+          }
+        }
+        hit
+      };
+      if su {
+        let s = self.root_subs.lock().unwrap().get(root).cloned().flatten();
+        if let Some(s) = s {
+          s.unsubscribe();
+          let n = self.log.lock().unwrap().len();
+          self.unsub_marks.lock().unwrap().push((root, n));
+        }
+      }
     }
   }
   fn sub_typed<T, F>(&self, o: &Observable<'static, T>, rec: u32, conv: F) -> Subscription<'static>
@@ -381,7 +411,7 @@ impl SRec {
           // the item is logged by sub_typed after this returns; subscribe first so
           // nothing the inner observable emits right away is missed
           let s = me.sub_typed(&inner, rec + k, |x: V| x.d);
-          me.inner_subs.lock().unwrap().push(s);
+          me.inner_subs.lock().unwrap().push((rec + k, s));
           D::Inner(k)
         })
       }
@@ -403,6 +433,8 @@ pub struct Trace {
   /// at every subscription of a harness source (src, instance): is_subscribed() of every observer
   /// handed out so far (the new one included), and - reference only - the lazy flags
   pub sub_snaps: Vec<(usize, usize, Vec<Vec<bool>>, Vec<Vec<bool>>)>,
+  /// (root, index into `events`): the root's unsubscribe, called from one of its own callbacks, had returned
+  pub self_unsub_marks: Vec<(usize, usize)>,
   /// after each step: per source the number of observers a library Subject still holds (real),
   /// resp. the number of live subscriptions (reference)
   pub held: Vec<Vec<usize>>,
@@ -482,6 +514,9 @@ pub fn run_real(case: &Case, opts: &RunOpts) -> Trace {
       case.acts.iter().filter_map(|a| if let Act::Feed { outer, trig, src, ev } = a { Some((*outer, *trig, *src, ev.clone(), false)) } else { None }).collect(),
     )),
     pushers: Arc::new(Mutex::new(vec![])),
+    self_unsubs: Arc::new(Mutex::new(case.acts.iter().filter_map(|a| if let Act::SelfUnsub { outer, trig } = a { Some((*outer, *trig, false)) } else { None }).collect())),
+    root_subs: Arc::new(Mutex::new(vec![])),
+    unsub_marks: Arc::new(Mutex::new(vec![])),
   };
   let n_roots = case
     .acts
@@ -538,7 +573,17 @@ pub fn run_real(case: &Case, opts: &RunOpts) -> Trace {
     for (step, act) in case.acts.iter().enumerate() {
       rec.step.store(step, Ordering::Relaxed);
       match act {
-        Act::Sub(r) => subs[*r] = Some(rec.subscribe(&built, rec_id(*r))),
+        Act::Sub(r) => {
+          let s = rec.subscribe(&built, rec_id(*r));
+          {
+            let mut rs = rec.root_subs.lock().unwrap();
+            while rs.len() <= *r {
+              rs.push(None);
+            }
+            rs[*r] = Some(s.clone());
+          }
+          subs[*r] = Some(s)
+        }
         Act::Emit(i, ev) => {
           if matches!(case.srcs[*i], SrcKind::Subject | SrcKind::BehaviorSubject | SrcKind::ReplaySubject) {
             srcs[*i].push_subject(&case.srcs[*i], ev)
@@ -567,7 +612,13 @@ pub fn run_real(case: &Case, opts: &RunOpts) -> Trace {
             }));
           }
         }
-        Act::Nest { .. } | Act::Feed { .. } => {}
+        Act::InnerUnsub(r, k) => {
+          let s = rec.inner_subs.lock().unwrap().iter().find(|x| x.0 == rec_id(*r) + *k).map(|x| x.1.clone());
+          if let Some(s) = s {
+            s.unsubscribe()
+          }
+        }
+        Act::Nest { .. } | Act::Feed { .. } | Act::SelfUnsub { .. } => {}
       }
       for (r, s) in rec.nested_subs.lock().unwrap().iter() {
         if subs[*r].is_none() {
@@ -581,6 +632,7 @@ pub fn run_real(case: &Case, opts: &RunOpts) -> Trace {
     drop(subs);
     *rec.built.lock().unwrap() = None;
     rec.pushers.lock().unwrap().clear();
+    rec.root_subs.lock().unwrap().clear();
     rec.nested_subs.lock().unwrap().clear();
     drop(built);
   }));
@@ -597,6 +649,7 @@ pub fn run_real(case: &Case, opts: &RunOpts) -> Trace {
   tr.events = rec.log.lock().unwrap().clone();
   tr.root_live = root_live.lock().unwrap().clone();
   tr.src_alive = src_alive.lock().unwrap().clone();
+  tr.self_unsub_marks = rec.unsub_marks.lock().unwrap().clone();
   tr.sub_snaps = registry.snaps.lock().unwrap().iter().map(|(a, b, c)| (*a, *b, c.clone(), vec![])).collect();
   registry.lists.lock().unwrap().clear();
   tr.held = held.lock().unwrap().clone();
@@ -611,7 +664,7 @@ pub fn run_real(case: &Case, opts: &RunOpts) -> Trace {
     // inner subscriptions, the recorder's log stays (it holds no tokens)
     // inner observables (windows, groups) are subscriptions of their own: the
     // caller ends them too before it expects its callbacks to be released
-    let inner: Vec<Subscription<'static>> = rec.inner_subs.lock().unwrap().drain(..).collect();
+    let inner: Vec<Subscription<'static>> = rec.inner_subs.lock().unwrap().drain(..).map(|x| x.1).collect();
     set_monitor_mode(true);
     let _ = catch_unwind(AssertUnwindSafe(|| {
       for s in &inner {
@@ -648,6 +701,9 @@ pub fn run_ref(case: &Case) -> Trace {
     if let Act::Feed { outer, trig, src, ev } = a {
       w.feeds.push((rec_id(*outer), *trig, *src, ev.clone(), false));
     }
+    if let Act::SelfUnsub { outer, trig } = a {
+      w.self_unsubs.push((rec_id(*outer), *trig, false));
+    }
   }
   for (step, act) in case.acts.iter().enumerate() {
     match act {
@@ -659,7 +715,13 @@ pub fn run_ref(case: &Case) -> Trace {
         }
       }
       Act::Nest { .. } => {}
-      Act::Feed { .. } => {}
+      Act::Feed { .. } | Act::SelfUnsub { .. } => {}
+      Act::InnerUnsub(r, k) => {
+        // only an inner observable the subscriber has been handed already can be unsubscribed
+        if w.all.iter().any(|(rc, e)| *rc == rec_id(*r) && *e == Ev::N(D::Inner(*k))) {
+          w.inner_unsubscribed.push(rec_id(*r) + *k)
+        }
+      }
     }
     for (rec, id) in w.root_of_rec.clone() {
       let r = (rec / 100 - 1) as usize;
